@@ -139,7 +139,9 @@ def plan(tier, seed):
     variants = G.fault_variants(tier, seed)
     rots = list(range(len(D.SENTINELS))) if tier == 'thorough' else list(range(0, len(D.SENTINELS), 6))
     n_sys = len(variants) * len(G.MODES) * len(rots)
-    pairs = G.pair_histories(tier) + G.nest_histories(tier) + G.cross_histories(tier) + G.toc_histories(tier)
+    spec = _spec_docs()
+    pairs = (G.pair_histories(tier) + G.nest_histories(tier) + G.cross_histories(tier) + G.toc_histories(tier)
+             + G.spec_pair_histories(tier, seed, spec))
     if tier == 'thorough':
         n_rand, n_ff = int(os.environ.get('VERIF_C11_RUNS', 400000)), int(os.environ.get('VERIF_C11_FF_RUNS', 60000))
     else:
@@ -236,6 +238,10 @@ def warm_cache(tier):
                     keys.append([{'k': 'MD', 'R': rid, 'opts': {}, 'doc': D.PROBES[n]}])
     for n in names:
         keys.append([{'k': 'BARE', 'doc': D.PROBES[n]}])
+    for doc in _spec_docs():
+        for rid in W.RENDERER_IDS:
+            keys.append([{'k': 'CTX', 'R': rid, 'opts': {}, 'exit': 'normal', 'steps': [{'k': 'RENDER', 'doc': doc}]}])
+            keys.append([{'k': 'MD', 'R': rid, 'opts': {}, 'doc': doc}])
     cache = {}
 
     def fn(widx, nw, emit):
@@ -324,7 +330,11 @@ def run_check(tier, seed):
         by_class.setdefault(v['klass'], []).append(v)
     reported = []
     known_lines = []
-    for klass, vs in sorted(by_class.items()):
+    MAX_CLASSES = 8      # one minimised replay per class; further classes are counted, not shrunk
+    ranked = sorted(by_class.items(), key=lambda kv: (-len(kv[1]), kv[0]))
+    if len(ranked) > MAX_CLASSES:
+        print('note: %d violation classes seen, reporting the %d most frequent' % (len(ranked), MAX_CLASSES))
+    for klass, vs in ranked[:MAX_CLASSES]:
         v, evals, ok = minimise(judge, vs[0])
         if not ok:
             raise core.HarnessError('violation did not reproduce when re-executed: batch=%s index=%s' % (vs[0]['batch'], vs[0]['index']))
